@@ -260,11 +260,13 @@ func checkPairingNotifications(x *Ctx, r *hubRig, phase string) (bool, bool) {
 	prodAt := map[int]time.Duration{} // production time of pairing detail #seq
 	lastSeq := map[key]int{}
 	newest := map[key]int{}
+	newestEv := map[key]int{}               // event number of that production
 	lastChangeAt := map[key]time.Duration{} // last time the hub's state for the SKI was set (handshake or API call)
 	for _, e := range x.Events() {
 		if e.Kind == "pairing-produced" {
 			prodAt[e.N%1000000] = e.T
 			newest[key{e.A, e.B}] = e.N % 1000000
+			newestEv[key{e.A, e.B}] = e.Seq
 			lastChangeAt[key{e.A, e.B}] = e.T
 		}
 		if e.Kind == "app-pairing" && strings.HasSuffix(e.B, "|direct") {
@@ -321,6 +323,40 @@ func checkPairingNotifications(x *Ctx, r *hubRig, phase string) (bool, bool) {
 				// says, its content is stale - something else.)
 				if lastKind[k] == "delayed" && lastSeq[k] != newest[k] && prodAt[lastSeq[k]] == prodAt[newest[k]] {
 					discr = "produced-at-the-same-instant"
+				}
+				if lastKind[k] == "delayed" && lastSeq[k] == newest[k] {
+					// the newest state was delivered last, and still the hub - which answers from its
+					// registered connection - says something else: was a connection of this hub
+					// replaced by a double connection and still alive (not yet reported closed)
+					// when that newest state was produced?
+					// ... and had its closing not even begun by then? (Once CloseConnection has been
+					// entered nothing is reported any more - 1790497; a state produced after that
+					// is not this finding.)
+					regs := 0
+					closeBegan := map[string]int{}
+					closedAfter := false
+					for _, e := range x.Events() {
+						if e.A != n.name {
+							continue
+						}
+						switch e.Kind {
+						case "hub-register":
+							if e.Seq < newestEv[k] {
+								regs++
+							}
+						case "close-entered":
+							if closeBegan[e.B] == 0 {
+								closeBegan[e.B] = e.Seq
+							}
+						case "hub-closed":
+							if e.Seq > newestEv[k] && closeBegan[e.B] > newestEv[k] {
+								closedAfter = true
+							}
+						}
+					}
+					if regs >= 2 && closedAfter {
+						discr = "state-of-replaced-double-connection"
+					}
 				}
 				if lastKind[k] == "direct" && last[k] == 0 && cur == 7 {
 					for _, e := range x.Events() {
